@@ -19,10 +19,11 @@ Record quirks := MkQuirks {
   q_keep_slot : bool;             (* D18b: Operator.HandleDeploy leaves o.checkpoint in place *)
   q_keep_savepoint : bool;        (* seeded C15-3: AbortPendingCheckpoint keeps a pending snapshot flagged as a savepoint *)
   q_ticker_once : bool;           (* seeded C15r2-1: the checkpoint ticker is created only if none was ever created *)
-  q_keep_complete_slot : bool     (* seeded C15r5-3: HandleDeploy clears o.checkpoint only while it is half aligned *)
+  q_keep_complete_slot : bool;    (* seeded C15r5-3: HandleDeploy clears o.checkpoint only while it is half aligned *)
+  q_install_superseded : bool     (* seeded C15r6-3: finishSnapshotAsync installs the snapshot it wrote even when a newer one is published *)
 }.
-Definition current : quirks := MkQuirks false false false false false false.
-Definition original : quirks := MkQuirks true true true false false false.
+Definition current : quirks := MkQuirks false false false false false false false.
+Definition original : quirks := MkQuirks true true true false false false false.
 
 Inductive status := Init | Paused | Starting | Running.
 Definition status_code (s : status) : N :=
@@ -59,13 +60,15 @@ Record st := MkSt {
   a_ops : list N; a_srs : list N;       (* j.assembly *)
   dep_ck : N;                           (* checkpoint the start in flight read with CurrentCheckpoint *)
   sto : store;
-  ticker : N                            (* j.checkpointTicker: 0 = never created, 1 = armed, 2 = stopped *)
+  ticker : N;                           (* j.checkpointTicker: 0 = never created, 1 = armed, 2 = stopped *)
+  holdw : bool;                         (* harness: the next job-snapshot file write is held (slow storage) *)
+  writing : N                           (* id of the fully acknowledged checkpoint whose file write is in progress (0 none) *)
 }.
 
 Record cfg := MkCfg { wc : nat; deadline : N; qk : quirks }.
 
 Definition init_store : store := MkStore None 0 0 0.
-Definition init : st := MkSt 0 [] [] [] Init [] [] 0 init_store 0.
+Definition init : st := MkSt 0 [] [] [] Init [] [] 0 init_store 0 false 0.
 
 (* Ticker.Stop (a ticker that was never created stays absent); clock.Every in the "running" task *)
 Definition tk_stop (t : N) : N := if t =? 0 then 0 else 2.
@@ -73,12 +76,12 @@ Definition tk_arm (q : quirks) (t : N) : N := if q_ticker_once q then (if t =? 0
 (* status change; leaving for Paused stops the checkpoint ticker (both places in job.go that set Paused do) *)
 Definition set_stat (s : st) (x : status) : st :=
   MkSt (now s) (ops s) (srs s) (hb s) x (a_ops s) (a_srs s) (dep_ck s) (sto s)
-       (match x with Paused => tk_stop (ticker s) | _ => ticker s end).
+       (match x with Paused => tk_stop (ticker s) | _ => ticker s end) (holdw s) (writing s).
 (* the queued "running" task of job.start: status Running and a fresh ticker *)
 Definition go_running (c : cfg) (s : st) : st :=
-  MkSt (now s) (ops s) (srs s) (hb s) Running (a_ops s) (a_srs s) (dep_ck s) (sto s) (tk_arm (qk c) (ticker s)).
+  MkSt (now s) (ops s) (srs s) (hb s) Running (a_ops s) (a_srs s) (dep_ck s) (sto s) (tk_arm (qk c) (ticker s)) (holdw s) (writing s).
 Definition set_sto (s : st) (x : store) : st :=
-  MkSt (now s) (ops s) (srs s) (hb s) (stat s) (a_ops s) (a_srs s) (dep_ck s) x (ticker s).
+  MkSt (now s) (ops s) (srs s) (hb s) (stat s) (a_ops s) (a_srs s) (dep_ck s) x (ticker s) (holdw s) (writing s).
 
 (* ---------- observations *)
 Record dep := MkDep { d_ops : list N; d_srs : list N; d_ck : list N; d_peers : bool }.
@@ -99,7 +102,7 @@ Definition purge (c : cfg) (s : st) : st :=
        (filter (fun n => negb (is_dead c s (true, n))) (ops s))
        (filter (fun n => negb (is_dead c s (false, n))) (srs s))
        (filter (fun e => negb (expired c (now s) e)) (hb s))
-       (stat s) (a_ops s) (a_srs s) (dep_ck s) (sto s) (ticker s).
+       (stat s) (a_ops s) (a_srs s) (dep_ck s) (sto s) (ticker s) (holdw s) (writing s).
 
 (* Assembly.Healthy *)
 Definition healthy (s : st) : bool :=
@@ -118,7 +121,7 @@ Definition start_begin (c : cfg) (s : st) : st * list dep :=
                    end in
   let so' := MkStore kept (completed so) (ctr so)
                      (if q_splitters_accumulate (qk c) then splitters so + 1 else 1) in
-  (MkSt (now s) (ops s) (srs s) (hb s) Starting ao ar (completed so) so' (ticker s),
+  (MkSt (now s) (ops s) (srs s) (hb s) Starting ao ar (completed so) so' (ticker s) (holdw s) (writing s),
    [MkDep ao ar (map (fun _ => completed so) ao) true]).
 
 (* job.evaluateClusterStatus *)
@@ -201,26 +204,37 @@ Inductive op :=
 | OFin (ok : bool)                      (* the start in flight ends: every Deploy returned / one failed *)
 | OTick                                 (* the harness ticks the "checkpointing" label: every ticker alive fires *)
 | OSavepoint                            (* Job.HandleCreateSavepoint: o_cid = the id returned, o_res = 1 on error *)
-| OAckOp (n id : N) | OAckSr (n id : N).
+| OAckOp (n id : N) | OAckSr (n id : N)
+| OHoldW                                (* harness: the next job-snapshot file write blocks in the storage (one at a time) *)
+| OReleaseW.                            (* the held write returns: finishSnapshotAsync goes on; o_published = id iff it became current *)
 
 Definition mk_obs (s : st) (ds : list dep) : obs := MkObs (status_code (stat s)) ds [] 0 0 0 0.
+
+(* the state after an ack: when the ack completed the checkpoint while the write gate is armed, the snapshot file is
+   being written: the pending snapshot is gone (finishSnapshot cleared it) but nothing is published yet *)
+Definition after_ack (s : st) (so : store) (res pub : N) : st * obs :=
+  if holdw s && negb (pub =? 0) then
+    let s1 := MkSt (now s) (ops s) (srs s) (hb s) (stat s) (a_ops s) (a_srs s) (dep_ck s)
+                   (MkStore (pend so) (completed (sto s)) (ctr so) (splitters so)) (ticker s) false pub in
+    (s1, MkObs (status_code (stat s1)) [] [] 0 res 0 0)
+  else let s1 := set_sto s so in (s1, MkObs (status_code (stat s1)) [] [] 0 res pub 0).
 
 Definition step (c : cfg) (s : st) (o : op) : st * obs :=
   match o with
   | ORegOp n =>
-      let s1 := MkSt (now s) (ins n (ops s)) (srs s) (hb_set (true, n) (now s) (hb s)) (stat s) (a_ops s) (a_srs s) (dep_ck s) (sto s) (ticker s) in
+      let s1 := MkSt (now s) (ins n (ops s)) (srs s) (hb_set (true, n) (now s) (hb s)) (stat s) (a_ops s) (a_srs s) (dep_ck s) (sto s) (ticker s) (holdw s) (writing s) in
       let '(s2, ds) := evaluate c s1 in (s2, mk_obs s2 ds)
   | ORegSr n =>
-      let s1 := MkSt (now s) (ops s) (ins n (srs s)) (hb_set (false, n) (now s) (hb s)) (stat s) (a_ops s) (a_srs s) (dep_ck s) (sto s) (ticker s) in
+      let s1 := MkSt (now s) (ops s) (ins n (srs s)) (hb_set (false, n) (now s) (hb s)) (stat s) (a_ops s) (a_srs s) (dep_ck s) (sto s) (ticker s) (holdw s) (writing s) in
       let '(s2, ds) := evaluate c s1 in (s2, mk_obs s2 ds)
   | ODeregOp n =>
-      let s1 := MkSt (now s) (rem n (ops s)) (srs s) (hb s) (stat s) (a_ops s) (a_srs s) (dep_ck s) (sto s) (ticker s) in
+      let s1 := MkSt (now s) (rem n (ops s)) (srs s) (hb s) (stat s) (a_ops s) (a_srs s) (dep_ck s) (sto s) (ticker s) (holdw s) (writing s) in
       let '(s2, ds) := evaluate c s1 in (s2, mk_obs s2 ds)
   | ODeregSr n =>
-      let s1 := MkSt (now s) (ops s) (rem n (srs s)) (hb s) (stat s) (a_ops s) (a_srs s) (dep_ck s) (sto s) (ticker s) in
+      let s1 := MkSt (now s) (ops s) (rem n (srs s)) (hb s) (stat s) (a_ops s) (a_srs s) (dep_ck s) (sto s) (ticker s) (holdw s) (writing s) in
       let '(s2, ds) := evaluate c s1 in (s2, mk_obs s2 ds)
   | OAdv ms =>
-      let s1 := MkSt (now s + ms) (ops s) (srs s) (hb s) (stat s) (a_ops s) (a_srs s) (dep_ck s) (sto s) (ticker s) in
+      let s1 := MkSt (now s + ms) (ops s) (srs s) (hb s) (stat s) (a_ops s) (a_srs s) (dep_ck s) (sto s) (ticker s) (holdw s) (writing s) in
       (s1, mk_obs s1 [])
   | OFin ok =>
       match stat s with
@@ -251,11 +265,24 @@ Definition step (c : cfg) (s : st) (o : op) : st * obs :=
       | _ => (s, MkObs (status_code (stat s)) [] [] 0 1 0 0)
       end
   | OAckOp n id =>
-      let '(so, res, pub) := ack_op (sto s) n id in
-      let s1 := set_sto s so in (s1, MkObs (status_code (stat s1)) [] [] 0 res pub 0)
+      let '(so, res, pub) := ack_op (sto s) n id in after_ack s so res pub
   | OAckSr n id =>
-      let '(so, res, pub) := ack_sr (sto s) n id in
-      let s1 := set_sto s so in (s1, MkObs (status_code (stat s1)) [] [] 0 res pub 0)
+      let '(so, res, pub) := ack_sr (sto s) n id in after_ack s so res pub
+  | OHoldW =>
+      if writing s =? 0 then
+        let s1 := MkSt (now s) (ops s) (srs s) (hb s) (stat s) (a_ops s) (a_srs s) (dep_ck s) (sto s) (ticker s) true 0 in
+        (s1, mk_obs s1 [])
+      else (s, mk_obs s [])
+  | OReleaseW =>
+      if writing s =? 0 then (s, mk_obs s [])
+      else
+        let so := sto s in
+        let w := writing s in
+        (* the guard of finishSnapshotAsync: a snapshot superseded by a newer published one is not installed *)
+        let install := q_install_superseded (qk c) || (completed so <? w) in
+        let so' := if install then MkStore (pend so) w (ctr so) (splitters so) else so in
+        let s1 := MkSt (now s) (ops s) (srs s) (hb s) (stat s) (a_ops s) (a_srs s) (dep_ck s) so' (ticker s) (holdw s) 0 in
+        (s1, MkObs (status_code (stat s1)) [] [] 0 0 (if install then w else 0) 0)
   end.
 
 Fixpoint run (c : cfg) (s : st) (l : list op) : st * list obs :=
